@@ -14,7 +14,7 @@ def run(ctx):
     simple_cbmc(ctx, 'session.c', 'imb_set_session: caller-owned session fields unaltered, ids consistent, failure leaves job untouched', 4)
     ctx.assume('strerror() is a stub returning a non-NULL sentinel; atomic_uint64_inc and the CRC used for session_id are stubs (their values are not part of C14)')
     ents = [1, 2, 3, 4, 5] if ctx.quick() else list(ring.ENTRIES)
-    ring.run_entries(ctx, ents, ['sse_t1'] if ctx.quick() else ['sse_t1', 'avx512_t1'], timeout=1500 if ctx.quick() else 3600)
+    ring.run_entries(ctx, ents, ['sse_t1'] if ctx.quick() else ['sse_t1', 'avx512_t1'], timeout=1500 if ctx.quick() else 3600, desc=True)
     l1.run_k1(ctx)
     ctx.samples.append('for ALL int e: imb_get_strerror(e) != NULL; IMB_ERR_MIN<e<IMB_ERR_MAX => a library message, listed once in imb_errno_types[]')
     ctx.samples.append('any ring state, any stale errno: SUBMIT_JOB leaves errno 0 on success / the validator code on rejection; every caller-owned field of every ring job unchanged')
